@@ -1132,6 +1132,14 @@ func (l *Ledger) Truncate(utxovmLastID []byte) error {
 		}
 	}
 
+	// 目标区块成为新的tip，主干上不再有下一个区块
+	block.NextHash = []byte{}
+	err = l.saveBlock(block, batchWrite)
+	if err != nil {
+		l.xlog.Warn("failed to save new tip block", "err", err)
+		return err
+	}
+
 	newMeta.TrunkHeight = block.Height
 	metaBuf, err := proto.Marshal(newMeta)
 	if err != nil {
